@@ -59,7 +59,7 @@ Proof.
     by (destruct (fx_parent_reuse fx); [exact R | reflexivity]).
   rewrite P0. cbn [obind]. rewrite Lr, Rr. cbn [obind].
   destruct (o_pid o =? r); [reflexivity|].
-  unfold ppid_call. rewrite R, L, C. cbn [obind].
+  unfold ppid_call. rewrite R, L. cbn [obind]. rewrite (caller_start_alive fx t o A). cbn [obind].
   pose proof (lookup_In _ _ _ L) as [He _].
   destruct (wf_range t e W He) as [_ [P1 P2]].
   unfold proc_new.
@@ -322,7 +322,7 @@ Proof.
   destruct (lowest_pid t c) as [low| |]; cbn [obind] in H; try discriminate.
   destruct (o_pid o =? low); [discriminate|].
   destruct (ppid_call t o) as [pp| |]; cbn [obind] in H; try discriminate.
-  destruct (self_ctime t o) as [ct| |]; cbn [obind] in H; try discriminate.
+  destruct (caller_start fx t o) as [ct| |]; cbn [obind] in H; try discriminate.
   unfold proc_new in H. destruct (pp <? 0); [discriminate|]. destruct (PID_MAX <? pp).
   { discriminate. }
   destruct (memz pp g); [discriminate|]. destruct (lookup t pp) as [pe|] eqn:Lp; [|discriminate].
